@@ -4,3 +4,43 @@ CALLS = []
 
 def reset():
     del CALLS[:]
+
+
+# What a failing parser raises: the exception type and - above all - its TEXT vary with the data of the call
+# (a handler that formats, splits, slices or re-parses the text must cope with every one of them).
+class FixtureError(Exception):
+    def __str__(self):
+        return 'custom __str__ with {braces} and %s'
+
+
+FAILURES = [
+    lambda n: ValueError('fixture parser %s refuses this section' % n),
+    lambda n: ValueError('{id}'),
+    lambda n: ValueError('{}'),
+    lambda n: ValueError('unexpected entry {'),
+    lambda n: ValueError("unexpected entry {'id': 7, 'x': [1, 2]}"),
+    lambda n: ValueError('closing } only'),
+    lambda n: ValueError('{0} {1} {version} {compID}'),
+    lambda n: ValueError('%s and %d and 100% and %(name)s'),
+    lambda n: ValueError('line one\nline two\n'),
+    lambda n: ValueError('\n'),
+    lambda n: ValueError('non-ASCII é中\U0001F600'),
+    lambda n: ValueError('"quoted": {"a": 1}, \\ backslash'),
+    lambda n: ValueError('x' * 3000),
+    lambda n: KeyError('missing key'),
+    lambda n: KeyError(),
+    lambda n: IndexError('list index out of range'),
+    lambda n: AssertionError(),
+    lambda n: ZeroDivisionError('division by zero'),
+    lambda n: UnicodeDecodeError('utf-8', b'\xff\xfe', 0, 1, 'invalid start byte'),
+    lambda n: FixtureError(),
+    lambda n: ValueError(7, {'a': 1}),
+    lambda n: OSError(28, 'No space left on device'),
+    lambda n: RecursionError('maximum recursion depth exceeded'),
+    lambda n: TypeError("unsupported operand type(s) for +: 'int' and 'str'"),
+]
+
+
+def failure(name, data=b''):
+    data = bytes(data) if not isinstance(data, str) else data.encode('utf-8', 'replace')
+    return FAILURES[(sum(data) + len(data)) % len(FAILURES)](name)
